@@ -57,7 +57,17 @@ class Monitor:
         return []
 
 
+def _classify_trace(v):
+    if "REDIRECT" in str(v.get("sig")):
+        from .e1jobs import stale_redirect
+
+        return stale_redirect(v.get("trace") or ())
+    return None
+
+
 class Explorer:
+    classify_trace = staticmethod(_classify_trace)
+
     def __init__(self, world: World, workload, monitors, budget=None, *, max_states=200000, time_cap=None,
                  signal_spec=None, trust_negative=False, sweep_at_quiescence=False, setup=None, stop_on_violation=True,
                  audit_bisim=False, actions_filter=None, die_points=("poll", "mark", "ack"), late_restart=False):
@@ -77,6 +87,7 @@ class Explorer:
         self.die_points = die_points
         self.late_restart = late_restart
         self._stmt_cache = {}
+        self._viol_classes = {}
         self.sweep_at_quiescence = sweep_at_quiescence
         # results
         self.states = 0
@@ -102,6 +113,11 @@ class Explorer:
         w.ledger = []
         wf = self.wl.build(w)
         w.incarnate(trust_negative=self.trust_negative)
+        if getattr(self.wl, "decoy", None):
+            # an older, unrelated workflow in the same store that happens to use the same stage ref_ids with another
+            # dependency shape (never started): nothing about the workflow under test may depend on it
+            w.store.store(self.wl.decoy_workflow())
+            w.drain_audit()
         w._engine_active = bool(getattr(self, "record_start", False))  # E2: commits of Orchestrator.start are crash points too
         try:
             w.orchestrator.start(wf)
@@ -458,7 +474,11 @@ class Explorer:
         v = dict(v)
         v["trace"] = list(trace)
         v["workload"] = self.wl.name
-        if len(self.violations) < 50:
+        # keep the first few instances of every distinct class (a frequent known class must not crowd out a new one)
+        cls = (v.get("sig"), self.classify_trace(v) if self.classify_trace else None)
+        n = self._viol_classes.get(cls, 0)
+        self._viol_classes[cls] = n + 1
+        if n < 3 and len(self.violations) < 600:
             self.violations.append(v)
         else:
             self.violations_dropped = getattr(self, "violations_dropped", 0) + 1
